@@ -3,166 +3,219 @@ import XmppModel.Lemmas.Muc
 /-!
 # C18 — MUC membership follows the room's presence exactly
 
-Theorems over the LTS of `Model/Muc.lean`: every history of join / re-join / leave / cancel
-calls on any number of channels interleaved with any sequence of presences, error replies,
-invitations and unrelated stanzas (`Reach`).  Hypothesis of the membership theorems: distinct
-channels in use have distinct occupant addresses (`addr` injective; a second `Client.Join`
-for an occupant address that is still in use is outside the model).
+Theorems over the LTS of `Model/Muc.lean`: every history of join / re-join (also under another
+nickname) / leave / cancel calls on any number of channels interleaved with any sequence of
+presences, error replies, invitations and unrelated stanzas (`Reach`).  No hypothesis on the
+occupant addresses: the code refuses a second channel for an address that is in use
+(`C18_second_channel_refused`), which is what makes the invariant inductive.
 -/
 namespace XmppModel.Props.C18
 open XmppModel.Muc
 
+set_option hygiene false in
+macro "step_cases" : tactic => `(tactic|
+  (cases a <;> simp only [step] at hs <;> (try split at hs) <;> (try split at hs) <;> (try split at hs) <;>
+    (try simp at hs) <;> (try subst hs) <;> (try simp only [upd] at *)))
+
 /-! ### joining -/
 
-/-- a `Join` call succeeds only through the processing of the self-presence for the requested
-occupant address, while that call is pending -/
-theorem C18_join_success_iff {addr : Nat → Nat} {s a s'} (hr : Reach addr s)
-    (hinj : ∀ c c', addr c = addr c' → c = c') (hs : step addr s a = some s') {c : Nat}
+/-- a `Join` call succeeds only through the processing of the self-presence from the occupant
+address it asked for, while that call is pending -/
+theorem C18_join_success_iff {s a s'} (hs : step s a = some s') {c : Nat}
     (hnew : s'.lastJoin c = some .ok) (hold : s.lastJoin c ≠ some .ok) :
-    a = .avail (addr c) ∧ s.jpc c = .pending ∧ s.managed (addr c) = some c := by
-  have hk := (inv_reach hinj hr).key
-  cases a <;> simp only [step] at hs <;> (try split at hs) <;> (try split at hs) <;> (try split at hs) <;>
-    (try simp at hs) <;> (try subst hs) <;> (try simp only [upd] at *) <;> grind
+    a = .avail (s.req c) ∧ s.jpc c = .pending ∧ s.managed (s.req c) = some c ∧ s'.cur c = s.req c := by
+  step_cases <;> grind
 
-/-- conversely the self-presence of a pending join completes it and sets membership -/
-theorem C18_self_presence_completes_join {addr : Nat → Nat} {s} {c : Nat}
-    (hm : s.managed (addr c) = some c) (hp : s.jpc c = .pending) :
-    ∃ s', step addr s (.avail (addr c)) = some s' ∧ s'.lastJoin c = some .ok ∧ s'.joined c = true
-      ∧ s'.jpc c = .idle := by
+/-- conversely the self-presence of a pending join completes it, sets membership and makes the
+requested address the one the channel holds -/
+theorem C18_self_presence_completes_join {s} {c : Nat}
+    (hm : s.managed (s.req c) = some c) (hp : s.jpc c = .pending) :
+    ∃ s', step s (.avail (s.req c)) = some s' ∧ s'.lastJoin c = some .ok ∧ s'.joined c = true
+      ∧ s'.jpc c = .idle ∧ s'.cur c = s.req c := by
   simp [step, hm, hp, upd]
 
 /-- a `Join` call returns the stanza error only after the room's error reply to that request,
 and the context's error only after its context was done -/
-theorem C18_join_error {addr : Nat → Nat} {s a s'} (hs : step addr s a = some s') {c : Nat} {e : JErr}
+theorem C18_join_error {s a s'} (hs : step s a = some s') {c : Nat} {e : JErr}
     (hnew : s'.jpc c = .failing e) (hold : s.jpc c ≠ .failing e) :
     s.jpc c = .pending ∧ ((e = .stanzaErr ∧ a = .joinError c) ∨ (e = .ctxErr ∧ a = .joinCancel c)) := by
-  cases a <;> simp only [step] at hs <;> (try split at hs) <;> (try split at hs) <;> (try split at hs) <;>
-    (try simp at hs) <;> (try subst hs) <;> (try simp only [upd] at *) <;> grind
+  step_cases <;> grind
 
-theorem C18_join_error_returned {addr : Nat → Nat} {s} {c : Nat} {e : JErr} (h : s.jpc c = .failing e) :
-    ∃ s', step addr s (.joinCleanup c) = some s' ∧ s'.lastJoin c = some (.err e) ∧ s'.jpc c = .idle
-      ∧ s'.joined c = s.joined c := by
+theorem C18_join_error_returned {s} {c : Nat} {e : JErr} (h : s.jpc c = .failing e) :
+    ∃ s', step s (.joinCleanup c) = some s' ∧ s'.lastJoin c = some (.err e) ∧ s'.jpc c = .idle
+      ∧ s'.joined c = s.joined c ∧ s'.cur c = s.cur c := by
   simp [step, h, upd]
+
+/-- the code enforces "one channel per occupant address": a join asking for an address another
+channel is registered under is refused at once and changes nothing else -/
+theorem C18_second_channel_refused {s} {c c' a : Nat} (hidle : s.jpc c = .idle)
+    (hm : s.managed a = some c') (hne : c' ≠ c) :
+    ∃ s', step s (.joinStart c a) = some s' ∧ s'.lastJoin c = some (.err .refused) ∧
+      s'.managed = s.managed ∧ s'.joined = s.joined ∧ s'.jpc = s.jpc ∧ s'.cur = s.cur := by
+  simp [step, hidle, hm, hne, upd]
+
+/-- … hence no address is ever held by two joined channels -/
+theorem C18_one_channel_per_address {addr0 s} (hr : Reach addr0 s) {c c' : Nat}
+    (h : s.joined c = true) (h' : s.joined c' = true) (ha : s.cur c = s.cur c') : c = c' := by
+  have hi := inv_reach hr
+  have h1 := hi.reg c h
+  have h2 := hi.reg c' h'
+  rw [ha, h2] at h1
+  injection h1 with h1; exact h1.symm
 
 /-! ### membership -/
 
 /- FULL-STRENGTH STATEMENT (property text), false for the code as it is:
 
-    theorem C18_membership (hinj) (hr : Reach addr s) (c) : s.joined c = s.member c
+    theorem C18_membership (hr : Reach addr0 s) (c) : s.joined c = s.member c
 
-  `member` is cleared only by the occupant's unavailable presence.  The code also ends the
-  membership when the room answers `Leave` with an error, because the package's own test
-  (`TestPartError`) demands `Joined() = false` after a refused `Leave`.  Known finding
-  `clause=membership key=not-joined-after-error-reply-to-leave`. -/
+  `member` is cleared only by the unavailable presence of the occupant address the channel holds.
+  The code also ends the membership when the room answers `Leave` with an error, because the
+  package's own test (`TestPartError`) demands `Joined() = false` after a refused `Leave`.  Known
+  finding `clause=membership key=not-joined-after-error-reply-to-leave`. -/
 
 /-- `Joined()` is exactly the ghost `memberX`: true from the success of a `Join` call until the
-unavailable presence of the channel's occupant address — or an error reply to `Leave` — has been
-processed, false before and after, in every reachable state -/
-theorem C18_membership_partial {addr : Nat → Nat} (hinj : ∀ c c', addr c = addr c' → c = c') {s}
-    (hr : Reach addr s) (c : Nat) : s.joined c = s.memberX c :=
-  (inv_reach hinj hr).mem c
+unavailable presence of the occupant address the channel holds — or an error reply to `Leave` —
+has been processed, false before and after, in every reachable state, for any number of channels
+and addresses (no distinctness hypothesis) -/
+theorem C18_membership_partial {addr0 s} (hr : Reach addr0 s) (c : Nat) : s.joined c = s.memberX c :=
+  (inv_reach hr).mem c
+
+theorem reach_run {addr0 s} (h : Reach addr0 s) : ∀ {as s'}, run s as = some s' → Reach addr0 s' := by
+  intro as
+  induction as generalizing s with
+  | nil => intro s' hr; simp [run] at hr; subst hr; exact h
+  | cons a as ih =>
+    intro s' hr
+    simp only [run] at hr
+    split at hr
+    · rename_i s1 hs1; exact ih (Reach.step h hs1) hr
+    · simp at hr
 
 /-- negation witness of the full-strength statement: join, self-presence, leave, error reply -/
 theorem C18_membership_fails :
     ¬ (∀ s, Reach (fun c => c) s → ∀ c, s.joined c = s.member c) := by
   intro h
-  have hr : ∃ s, run (fun c => c) init [.joinStart 0, .avail 0, .leaveStart 0, .leaveError 0] = some s ∧
+  have hr : ∃ s, run (init fun c => c) [.joinStart 0 0, .avail 0, .leaveStart 0, .leaveError 0] = some s ∧
       s.joined 0 = false ∧ s.member 0 = true := by
     simp [run, step, init, upd]
   obtain ⟨s, hs, hj, hm⟩ := hr
-  have hreach : Reach (fun c => c) s := by
-    have : ∀ {as s0 s1}, Reach (fun c => c) s0 → run (fun c => c) s0 as = some s1 → Reach (fun c => c) s1 := by
-      intro as
-      induction as with
-      | nil => intro s0 s1 h0 h1; simp [run] at h1; subst h1; exact h0
-      | cons a as ih =>
-        intro s0 s1 h0 h1
-        simp only [run] at h1
-        split at h1
-        · rename_i s2 hs2; exact ih (Reach.step h0 hs2) h1
-        · simp at h1
-    exact this Reach.init hs
-  have := h s hreach 0
+  have := h s (reach_run Reach.init hs) 0
   rw [hj, hm] at this
   exact Bool.noConfusion this
 
 /-- without error replies to `Leave` the two ghosts coincide, i.e. the literal statement holds on
 every history in which no `Leave` is refused -/
-theorem C18_membership_literal_without_refused_leave {addr : Nat → Nat} {s a s'}
-    (hs : step addr s a = some s') (hne : ∀ c, a ≠ .leaveError c) (h : ∀ c, s.member c = s.memberX c) :
+theorem C18_membership_literal_without_refused_leave {s a s'}
+    (hs : step s a = some s') (hne : ∀ c, a ≠ .leaveError c) (h : ∀ c, s.member c = s.memberX c) :
     ∀ c, s'.member c = s'.memberX c := by
   intro c
-  cases a <;> simp only [step] at hs <;> (try split at hs) <;> (try split at hs) <;> (try split at hs) <;>
-    (try simp at hs) <;> (try subst hs) <;> (try simp only [upd] at *) <;> grind
+  step_cases <;> grind
 
-/-- what drives the ghost (read off `step`): only a successful join sets it, only the occupant's
-unavailable presence clears it -/
-theorem C18_member_spec {addr : Nat → Nat} {s a s'} (hs : step addr s a = some s') (c : Nat) :
+/-- what drives the ghost (read off `step`): only a successful join sets it, only the unavailable
+presence of the address the channel holds clears it -/
+theorem C18_member_spec {s a s'} (hs : step s a = some s') (c : Nat) :
     (s'.member c = true ∧ s.member c = false → s'.lastJoin c = some .ok ∧ s.jpc c = .pending) ∧
-    (s'.member c = false ∧ s.member c = true → a = .unavail (addr c)) := by
-  cases a <;> simp only [step] at hs <;> (try split at hs) <;> (try split at hs) <;> (try split at hs) <;>
-    (try simp at hs) <;> (try subst hs) <;> (try simp only [upd] at *) <;> grind
+    (s'.member c = false ∧ s.member c = true → a = .unavail (s.cur c)) := by
+  step_cases <;> grind
 
-example : ∃ s, run (fun c => c) init [.joinStart 0, .avail 0] = some s ∧ s.joined 0 = true := by
+example : ∃ s, run (init fun c => c) [.joinStart 0 0, .avail 0] = some s ∧ s.joined 0 = true := by
   simp [run, step, init, upd]
-example : ∃ s, run (fun c => c) init [.joinStart 0, .avail 0, .unavail 0] = some s ∧ s.joined 0 = false := by
+example : ∃ s, run (init fun c => c) [.joinStart 0 0, .avail 0, .unavail 0] = some s ∧ s.joined 0 = false := by
   simp [run, step, init, upd]
-example : ∃ s, run (fun c => c) init [.joinStart 0, .joinError 0, .joinCleanup 0, .avail 0] = some s ∧
+example : ∃ s, run (init fun c => c) [.joinStart 0 0, .joinError 0, .joinCleanup 0, .avail 0] = some s ∧
     s.joined 0 = false ∧ s.upres = 0 := by
   simp [run, step, init, upd]
 
-/-- a joined channel stays registered under its occupant address (so the unavailable presence
-finds it); a failed join of a channel that is not joined leaves nothing registered -/
-theorem C18_registered_while_joined {addr : Nat → Nat} (hinj : ∀ c c', addr c = addr c' → c = c') {s}
-    (hr : Reach addr s) {c : Nat} (h : s.joined c = true) : s.managed (addr c) = some c :=
-  (inv_reach hinj hr).reg c h
+/-- a joined channel stays registered under the occupant address it holds (so the unavailable
+presence finds it) -/
+theorem C18_registered_while_joined {addr0 s} (hr : Reach addr0 s) {c : Nat} (h : s.joined c = true) :
+    s.managed (s.cur c) = some c :=
+  (inv_reach hr).reg c h
+
+/-! ### re-joining under another nickname -/
+
+/-- while a change of nickname is pending, a presence of the nickname still held does not
+complete it (it is an ordinary occupant presence) and the membership is untouched -/
+theorem C18_nick_change_not_completed_by_old {s} {c : Nat} (hp : s.jpc c = .pending)
+    (hne : s.req c ≠ s.cur c) (hm : s.managed (s.cur c) = some c) :
+    ∃ s', step s (.avail (s.cur c)) = some s' ∧ s'.jpc c = .pending ∧ s'.joined c = s.joined c ∧
+      s'.cur c = s.cur c ∧ s'.upres = s.upres + 1 := by
+  simp [step, hm, hne, hp]
+
+/-- the self-presence from the new nickname completes it: the channel now holds the new address
+and is no longer registered under the old one -/
+theorem C18_nick_change_completed {s} {c : Nat} (hp : s.jpc c = .pending) (hne : s.req c ≠ s.cur c)
+    (hm : s.managed (s.req c) = some c) (hold : s.managed (s.cur c) = some c) :
+    ∃ s', step s (.avail (s.req c)) = some s' ∧ s'.joined c = true ∧ s'.cur c = s.req c ∧
+      s'.managed (s.cur c) = none ∧ s'.managed (s.req c) = some c := by
+  have h1 : s.cur c ≠ s.req c := fun h => hne h.symm
+  simp [step, hm, hp, upd, h1, hold, hne]
+
+/-- a refused (or cancelled) change of nickname leaves the channel exactly where it was: still
+joined, still holding and registered under the old address, nothing registered under the new one -/
+theorem C18_nick_change_refused_keeps_membership {addr0 s} (hr : Reach addr0 s) {c : Nat} {e : JErr}
+    (hf : s.jpc c = .failing e) (hne : s.req c ≠ s.cur c) (hj : s.joined c = true) :
+    ∃ s', step s (.joinCleanup c) = some s' ∧ s'.joined c = true ∧ s'.cur c = s.cur c ∧
+      s'.managed (s.cur c) = some c ∧ s'.managed (s.req c) ≠ some c := by
+  have hreg := (inv_reach hr).reg c hj
+  have h1 : ¬ (s.joined c = true ∧ s.cur c = s.req c) := fun h => hne h.2.symm
+  have h2 : s.cur c ≠ s.req c := fun h => hne h.symm
+  by_cases hm : s.managed (s.req c) = some c
+  · simp [step, hf, upd, hm, hj, hreg, hne, h2]
+  · simp [step, hf, upd, hm, hj, hreg]
+
+example : ∃ s, run (init fun c => c)
+    [.joinStart 0 0, .avail 0, .joinStart 0 10, .avail 0, .unavail 0, .avail 10] = some s ∧
+    s.joined 0 = true ∧ s.cur 0 = 10 ∧ s.managed 0 = none ∧ s.upres = 1 := by
+  simp [run, step, init, upd]
 
 /-! ### leaving -/
 
-/-- no lost wake-up: processing the occupant's unavailable presence leaves a token for `Leave` … -/
-theorem C18_unavailable_leaves_token {addr : Nat → Nat} {s} {a c : Nat} (hm : s.managed a = some c) :
-    ∃ s', step addr s (.unavail a) = some s' ∧ s'.depart c = true ∧ s'.joined c = false ∧ s'.managed a = none := by
+/-- no lost wake-up: processing the unavailable presence of the address the channel holds leaves
+a token for `Leave` … -/
+theorem C18_unavailable_leaves_token {s} {c : Nat} (hm : s.managed (s.cur c) = some c) :
+    ∃ s', step s (.unavail (s.cur c)) = some s' ∧ s'.depart c = true ∧ s'.joined c = false ∧
+      s'.managed (s.cur c) = none := by
   simp [step, hm, upd]
 
-/-- … which only `Leave` itself (or the start of the next join) removes … -/
-theorem C18_token_kept {addr : Nat → Nat} {s a s'} (hs : step addr s a = some s') {c : Nat}
-    (h : s.depart c = true) (h1 : a ≠ .leaveDepart c) (h2 : a ≠ .joinStart c) : s'.depart c = true := by
-  cases a <;> simp only [step] at hs <;> (try split at hs) <;> (try split at hs) <;> (try split at hs) <;>
-    (try simp at hs) <;> (try subst hs) <;> (try simp only [upd] at *) <;> grind
+/-- … which only `Leave` itself, the start of the next join or its completion remove … -/
+theorem C18_token_kept {s a s'} (hs : step s a = some s') {c : Nat}
+    (h : s.depart c = true) (h1 : a ≠ .leaveDepart c) (h2 : ∀ x, a ≠ .joinStart c x)
+    (h3 : a ≠ .avail (s.req c)) : s'.depart c = true := by
+  step_cases <;> grind
 
 /-- … so a waiting `Leave` returns when that presence has arrived (whenever it arrived), when the
 error reply arrives, or when its context is done -/
-theorem C18_leave_returns {addr : Nat → Nat} {s} {c : Nat} (hw : s.lpc c = .waiting) :
-    (s.depart c = true → ∃ s', step addr s (.leaveDepart c) = some s' ∧ s'.lastLeave c = some .ok) ∧
-    (∃ s', step addr s (.leaveError c) = some s' ∧ s'.lastLeave c = some (.err .stanzaErr) ∧ s'.joined c = false) ∧
-    (∃ s', step addr s (.leaveCancel c) = some s' ∧ s'.lastLeave c = some (.err .ctxErr)) := by
+theorem C18_leave_returns {s} {c : Nat} (hw : s.lpc c = .waiting) :
+    (s.depart c = true → ∃ s', step s (.leaveDepart c) = some s' ∧ s'.lastLeave c = some .ok) ∧
+    (∃ s', step s (.leaveError c) = some s' ∧ s'.lastLeave c = some (.err .stanzaErr) ∧ s'.joined c = false) ∧
+    (∃ s', step s (.leaveCancel c) = some s' ∧ s'.lastLeave c = some (.err .ctxErr)) := by
   refine ⟨?_, ?_, ?_⟩
   · intro h; simp [step, hw, h, upd]
   · simp [step, hw, upd]
   · simp [step, hw, upd]
 
 /-- `Leave` returns success only by consuming the token of an unavailable presence -/
-theorem C18_leave_success_iff {addr : Nat → Nat} {s a s'} (hs : step addr s a = some s') {c : Nat}
+theorem C18_leave_success_iff {s a s'} (hs : step s a = some s') {c : Nat}
     (hnew : s'.lastLeave c = some .ok) (hold : s.lastLeave c ≠ some .ok) :
     a = .leaveDepart c ∧ s.depart c = true := by
-  cases a <;> simp only [step] at hs <;> (try split at hs) <;> (try split at hs) <;> (try split at hs) <;>
-    (try simp at hs) <;> (try subst hs) <;> (try simp only [upd] at *) <;> grind
+  step_cases <;> grind
 
 /-! ### presences for rooms that were never joined, invitations -/
 
 /-- presences from an address no channel is registered for change nothing and call nothing -/
-theorem C18_unmanaged_ignored {addr : Nat → Nat} (hinj : ∀ c c', addr c = addr c' → c = c') {s}
-    (hr : Reach addr s) {a : Nat} (hm : s.managed a = none) :
-    step addr s (.avail a) = some s ∧
-    ∃ s', step addr s (.unavail a) = some s' ∧ s'.joined = s.joined ∧ s'.managed = s.managed ∧
+theorem C18_unmanaged_ignored {addr0 s} (hr : Reach addr0 s) {a : Nat} (hm : s.managed a = none) :
+    step s (.avail a) = some s ∧
+    ∃ s', step s (.unavail a) = some s' ∧ s'.joined = s.joined ∧ s'.managed = s.managed ∧
       s'.upres = s.upres ∧ s'.depart = s.depart ∧ ∀ c, s'.memberX c = s.memberX c := by
-  have hi := inv_reach hinj hr
+  have hi := inv_reach hr
   refine ⟨by simp [step, hm], ?_⟩
   simp only [step, hm]
   refine ⟨_, rfl, rfl, rfl, rfl, rfl, ?_⟩
   intro c
-  show (if addr c = a then false else s.memberX c) = s.memberX c
-  by_cases hc : addr c = a
+  show (if s.cur c = a then false else s.memberX c) = s.memberX c
+  by_cases hc : s.cur c = a
   · have : s.joined c = false := by
       cases hj : s.joined c
       · rfl
@@ -170,10 +223,34 @@ theorem C18_unmanaged_ignored {addr : Nat → Nat} (hinj : ∀ c c', addr c = ad
     simp [hc, ← hi.mem c, this]
   · simp [hc]
 
-/-- each mediated invitation is delivered to the callback exactly once, nothing else calls it -/
-theorem C18_invite_once {addr : Nat → Nat} {s a s'} (hs : step addr s a = some s') :
-    s'.invites = if a = .invite then s.invites + 1 else s.invites := by
-  cases a <;> simp only [step] at hs <;> (try split at hs) <;> (try split at hs) <;> (try split at hs) <;>
-    (try simp at hs) <;> (try subst hs) <;> simp
+/-- each mediated invitation payload of a message is delivered to the callback exactly once —
+whatever its position among the children of the message — and nothing else calls the callback -/
+theorem C18_invite_once {s a s'} (hs : step s a = some s') :
+    s'.invites = match a with
+      | .message cs => s.invites + invitationsIn cs
+      | _ => s.invites := by
+  step_cases <;> simp
+
+/-- the order of the children does not matter -/
+theorem C18_invite_order_irrelevant {cs cs' : List Child} (h : cs.Perm cs') :
+    invitationsIn cs = invitationsIn cs' := by
+  unfold invitationsIn
+  exact (h.filter _).length_eq
+
+/-- a message with exactly one mediated invitation payload, anywhere, gives exactly one callback;
+one without gives none (body, subject, legacy direct invitation, decline, other payloads) -/
+theorem C18_invite_anywhere (pre post : List Child) (hpre : Child.mucInvite ∉ pre) (hpost : Child.mucInvite ∉ post) :
+    invitationsIn (pre ++ .mucInvite :: post) = 1 ∧ invitationsIn (pre ++ post) = 0 := by
+  have h : ∀ l : List Child, Child.mucInvite ∉ l → (l.filter (· == .mucInvite)) = [] := by
+    intro l hl
+    apply List.filter_eq_nil_iff.mpr
+    intro x hx hxe
+    have : x = .mucInvite := by simpa using hxe
+    exact hl (this ▸ hx)
+  unfold invitationsIn
+  simp [List.filter_append, h pre hpre, h post hpost]
+
+example : invitationsIn [.body, .legacyX, .mucInvite, .subject] = 1 := by decide
+example : invitationsIn [.body, .legacyX, .mucOther] = 0 := by decide
 
 end XmppModel.Props.C18
